@@ -454,7 +454,7 @@ fn ob_c04_mpmc_count_senders_drop() { count_senders(true); }
 #[kani::unwind(6)]
 fn ob_c04_mpmc_count_senders_close() { count_senders(false); }
 
-// @obligation id=c04.mpmc.count.receivers.drop props=C04 kind=hist tier=thorough bound="bounded(1), two receiver clones, drop one then the other; try_send / try_send_batch_mut report Closed with the value"
+// @obligation id=c04.mpmc.count.receivers.drop props=C04 kind=hist tier=probe bound="bounded(1), two receiver clones, drop one then the other; try_send / try_send_batch_mut report Closed with the value"
 #[kani::proof]
 #[kani::stub(std::thread::current::current, crate::verif_k_stubs::stub_thread_current)]
 #[kani::stub(parking_lot::RawMutex::lock_slow, crate::verif_k_stubs::stub_lock_slow)]
@@ -466,7 +466,7 @@ fn ob_c04_mpmc_count_senders_close() { count_senders(false); }
 #[kani::unwind(6)]
 fn ob_c04_mpmc_count_receivers_drop() { count_receivers(true); }
 
-// @obligation id=c04.mpmc.count.receivers.close props=C04 kind=hist tier=thorough bound="bounded(1), two receiver clones, close one then the other"
+// @obligation id=c04.mpmc.count.receivers.close props=C04 kind=hist tier=probe bound="bounded(1), two receiver clones, close one then the other"
 #[kani::proof]
 #[kani::stub(std::thread::current::current, crate::verif_k_stubs::stub_thread_current)]
 #[kani::stub(parking_lot::RawMutex::lock_slow, crate::verif_k_stubs::stub_lock_slow)]
